@@ -588,12 +588,14 @@ fn dedent_bytes(source: &[u8], is_utf8_byte_string: bool) -> Result<Vec<u8>, Str
   )
 }
 
+#[cfg(feature = "additional-controls")]
 fn plus_overflow() -> String {
   "integer overflow in .plus operation".to_string()
 }
 
 /// Numeric addition of target and controller. The Vec return type is to
 /// accommodate more than one type choice in the controller
+#[cfg(feature = "additional-controls")]
 pub fn plus_operation<'a>(
   cddl: &'a CDDL<'a>,
   target: &Type2,
